@@ -331,29 +331,36 @@ func TestC12(t *testing.T) {
 		if c.Change == "edit-other" && c.EditAt == 0 {
 			c.EditAt = len(c.Spec.Pkgs) - 1
 		}
-		var v *verdict
-		var labels []string
-		var nt bool
-		if rapid.IntRange(0, 5).Draw(t, "testvariant") == 0 {
-			// one case in six looks at garble test with -seed instead
-			c.Change, c.Seeded = "test-variant", true
-			c.Spec = progen.Draw(t, progen.Options{Kinds: []string{"tests", "tests", "struct", "closure"}, MinPkgs: 2, MaxPkgs: 3, MinFeats: 2, MaxFeats: 4, NoExit: true})
-			hasTests := false
-			for _, f := range c.Spec.Feats {
-				hasTests = hasTests || f.Kind == "tests"
-			}
-			if !hasTests {
-				c.Spec.Feats[0].Kind = "tests"
-				if c.Spec.Feats[0].Prov == 0 {
-					c.Spec.Feats[0].Prov, c.Spec.Feats[0].User = 1, 0
-				}
-			}
-			v, labels, nt = c12TestVariant(c)
-		} else {
-			v, labels, nt = c12Run(c)
-		}
+		v, labels, nt := c12Run(c)
 		stats.Case(stats.Desc(c.Change, fmt.Sprint(c.Seeded), strings.Join(labels, ",")), nt, labels,
 			map[string]any{"change": c.Change, "seeded": c.Seeded, "packages": len(c.Spec.Pkgs), "edited_package": c.EditAt})
+		if v != nil {
+			dir := dumpViolation(v, "TestC12Replay", c, nil)
+			t.Fatalf("%s: %s\nreplay: %s", v.Key, h.Clip(v.Msg, 3000), dir)
+		}
+	})
+}
+
+// TestC12TestVariant: `garble -seed test` on programs whose packages have
+// internal and external test packages declaring same-named identifiers.
+func TestC12TestVariant(t *testing.T) {
+	rc.Check(t, func(t *rapid.T) {
+		var c c12Case
+		c.Change, c.Seeded = "test-variant", true
+		c.Spec = progen.Draw(t, progen.Options{Kinds: []string{"tests", "tests", "struct", "closure"}, MinPkgs: 2, MaxPkgs: 3, MinFeats: 2, MaxFeats: 4, NoExit: true})
+		c.Spec.Args = nil
+		hasTests := false
+		for _, f := range c.Spec.Feats {
+			hasTests = hasTests || f.Kind == "tests"
+		}
+		if !hasTests {
+			c.Spec.Feats[0].Kind = "tests"
+			if c.Spec.Feats[0].Prov == 0 {
+				c.Spec.Feats[0].Prov, c.Spec.Feats[0].User = 1, 0
+			}
+		}
+		v, labels, nt := c12TestVariant(c)
+		stats.Case(stats.Desc("test-variant", fmt.Sprint(len(c.Spec.Feats)), fmt.Sprint(len(c.Spec.Pkgs))), nt, labels, map[string]any{"change": "test-variant", "seeded": true, "packages": len(c.Spec.Pkgs)})
 		if v != nil {
 			dir := dumpViolation(v, "TestC12Replay", c, nil)
 			t.Fatalf("%s: %s\nreplay: %s", v.Key, h.Clip(v.Msg, 3000), dir)
